@@ -228,6 +228,8 @@ pub fn feature_modules() -> Vec<(&'static str, String)> {
         m("values3", "Sv ::= SEQUENCE { a INTEGER, b BOOLEAN OPTIONAL } sv Sv ::= { a 1, b TRUE } Lv ::= SEQUENCE OF INTEGER lv Lv ::= { 5 } Cv ::= CHOICE { s Sv, l Lv } cv Cv ::= l:{ 7 } cw Cv ::= s:{ a 2, b FALSE }"),
         m("upper-type-names", "PDU ::= SEQUENCE { id INTEGER (0..7), ok BOOLEAN } msg PDU ::= { id 1, ok TRUE } ID ::= INTEGER (0..7) one ID ::= 1 LIST ::= SEQUENCE OF ID lst LIST ::= { 1, 2 } Hld ::= SEQUENCE { p PDU DEFAULT { id 2, ok FALSE } }"),
         m("value-named-like-type", "PDU ::= SEQUENCE { id INTEGER (0..7) } pdu PDU ::= { id 1 } Abc ::= INTEGER abc Abc ::= 5"),
+        m("nested-choice-values", "Pdu-Hdr ::= SEQUENCE { c CHOICE { a INTEGER, b NULL } } v Pdu-Hdr ::= { c a:1 } Tp2 ::= CHOICE { a0 SEQUENCE { m0 INTEGER }, a1 CHOICE { a0 INTEGER, a1 NULL } } v2 Tp2 ::= a1:a0:5"),
+        m("anonymous-element-values", "Tp1 ::= SEQUENCE OF CHOICE { a0 INTEGER, a1 NULL } v1 Tp1 ::= { a0:5 } Tp3 ::= SEQUENCE { m0 SEQUENCE OF CHOICE { a0 INTEGER, a1 NULL } } v3 Tp3 ::= { m0 { a0:5 } }"),
         m("default-names", "PDU-Header ::= SEQUENCE { version INTEGER DEFAULT 1, flag BOOLEAN DEFAULT TRUE } X-Y ::= SEQUENCE { a INTEGER (0..7) DEFAULT 0 } Ab-CD-e ::= SET { a BOOLEAN DEFAULT FALSE } UE-Capability ::= SEQUENCE { supported BOOLEAN DEFAULT TRUE, n INTEGER }"),
         m("default-of", "Sd ::= SEQUENCE { tail SET OF BOOLEAN DEFAULT { TRUE }, head SEQUENCE OF INTEGER DEFAULT { 1, 2 }, none SEQUENCE OF BOOLEAN DEFAULT { } }"),
         m("constraint-ops", "A ::= INTEGER (0..10 ^ 5..20) B ::= INTEGER (1 | 3 | 5) C ::= INTEGER (0..10 EXCEPT 5) D ::= INTEGER (ALL EXCEPT 0) E ::= INTEGER (0..100)(10..20) F ::= INTEGER (0..10 UNION 20..30) G ::= INTEGER (0..10 INTERSECTION 5..20)"),
